@@ -239,3 +239,58 @@ func OnceValues[T1, T2 any](f func() (T1, T2)) func() (T1, T2) {
 	var v2 T2
 	return func() (T1, T2) { o.Do(func() { v1, v2 = f() }); return v1, v2 }
 }
+
+
+// Pool is a deterministic stand-in for sync.Pool. The real pool, when built with the race detector, drops a quarter of
+// all Puts at random and keeps per-P caches - randomness the explorer does not own, which made a conflict on a pooled
+// buffer reproduce in some worker processes and not in others. Here Put always keeps the item (LIFO) and Get always
+// returns the most recently put one, which is also the schedule in which a buffer released too early is handed to the
+// next user at once. The happens-before edges are the real pool's: Put(x) happens before the Get that returns x, for
+// that x only (a per-item release/acquire pair); nothing else is ordered. The item list itself is manipulated in
+// norace functions: the controlled scheduler runs one thread at a time.
+type Pool struct {
+	New   func() any
+	items []*poolItem
+}
+
+type poolItem struct {
+	v    any
+	flag uint32
+}
+
+//go:norace
+func (p *Pool) push(it *poolItem) { p.items = append(p.items, it) }
+
+//go:norace
+func (p *Pool) pop() *poolItem {
+	if len(p.items) == 0 {
+		return nil
+	}
+	it := p.items[len(p.items)-1]
+	p.items = p.items[:len(p.items)-1]
+	return it
+}
+
+// Put adds x to the pool.
+func (p *Pool) Put(x any) {
+	if x == nil {
+		return
+	}
+	it := &poolItem{v: x}
+	atomic.StoreUint32(&it.flag, 1) // release: everything the caller did to x so far
+	p.push(it)
+	point("pool.put")
+}
+
+// Get takes the most recently put item, or calls New.
+func (p *Pool) Get() any {
+	point("pool.get")
+	if it := p.pop(); it != nil {
+		atomic.LoadUint32(&it.flag) // acquire: pairs with the Put of this item
+		return it.v
+	}
+	if p.New != nil {
+		return p.New()
+	}
+	return nil
+}
